@@ -29,7 +29,7 @@ BOUNDS = {'quick': "every relation graph on <= 3 steps and a seeded sample of 15
 OUTSIDE = ["graph depth beyond the shape bound (MAX_GRAPH_DEPTH = 5000 is never approached)", "relations to operations of a different circuit",
            "repetition counts > 1 (C06)"]
 ASSUMPTIONS = ["hash(Sym) constant / == decided by the solver", "memo caches start empty"]
-REQUIRED_REACH = ['C02.count', 'C02.once', 'C02.kind', 'C02.duration', 'C02.causal', 'C02.stable', 'C02.late_add', 'C02.last_entry', 'C02.returned']
+REQUIRED_REACH = ['C02.count', 'C02.once', 'C02.kind', 'C02.duration', 'C02.causal', 'C02.stable', 'C02.late_add', 'C02.last_entry', 'C02.returned', 'C02.duration.after_registry_change']
 EXHAUSTIVE = {'quick': False, 'thorough': False}
 JOB_OPTS = {'quick': dict(max_paths=3000, max_seconds=300), 'thorough': dict(max_paths=20000, max_seconds=900)}
 TRUNCATION_OK = {'quick': 4, 'thorough': 20}   # sampled tier: this many random jobs may exhaust their path/time budget (listed as truncated in the evidence)
@@ -62,6 +62,9 @@ def jobs(tier, seed):
     inner3 = list(gen.flat_programs(3, [['W', 0, 'ALL'], ['W', 1, 'ALL']]))
     nested3 = list(gen.nested_programs(ALPHA_U[:1], inner3, 1)) + gen.sample(gen.nested_programs(ALPHA_U[:2], inner3, 2, types='F'), 150 if tier == 'quick' else 1500, seed + 8)
     out += [{'prog': p, 'share': True} for p in nested3]
+    # registry-driven durations inside nested blocks: the listed (copied) operations keep following the registry
+    reg_in = list(gen.programs_upto(2, [['R', 0, 'ALL'], ['W', 0, 'ALL'], ['R', 1, 'ALL']], types='FS'))
+    out += [{'prog': p, 'share': False, 'setreg': True} for p in gen.sample(gen.nested_programs(ALPHA_U[:2], reg_in, 2, types='F'), 200 if tier == 'quick' else 2000, seed + 9)]
     return out
 
 
@@ -89,8 +92,8 @@ def run(ctx, params):
             ctx.check('C02.once', len(idx) == 1, {'step': n.label(), 'occurrences': len(idx), 'kind': n.kind})
             o = n.obj
             k = n.kind
-            cls_ok = type(o).__name__ == {'W': 'Wait', 'M': 'DispersiveMeasure', 'B': 'Barrier'}.get(k[0], k[1] if k[0] in 'GVT' else None)
-            if k[0] == 'W':
+            cls_ok = type(o).__name__ == {'W': 'Wait', 'R': 'Wait', 'M': 'DispersiveMeasure', 'B': 'Barrier'}.get(k[0], k[1] if k[0] in 'GVT' else None)
+            if k[0] in ('W', 'R'):
                 q_ok = o.qubit_index == k[1] and o.qubit_channel == cm.CH[k[2]]
             elif k[0] == 'G':
                 q_ok = [ci.id for ci in o.channel_identifiers][::len(cm.GLOBAL_OF[k[1]][1])] == list(k[2])
@@ -105,6 +108,19 @@ def run(ctx, params):
                 ctx.check('C02.duration', o.duration == n.dur, {'step': n.label(), 'listed_duration': o.duration, 'added_duration': n.dur})
             elif k[0] == 'G':
                 ctx.check('C02.duration', o.duration == g[cm.GLOBAL_OF[k[1]][0]], {'step': n.label(), 'listed_duration': o.duration})
+        if params.get('setreg'):
+            # the registry values change after the build: every listed operation whose step reads the registry reports the new value
+            for i, key in enumerate(built.reg_keys):
+                v = ctx.real(f'v1_{i}', lo=0)
+                built.registry.set_registry_at(key, v)
+                for n in leaves:
+                    if n.kind[0] == 'R' and ('key_' + n.label().replace('.', '_')) == key:
+                        n.dur = v
+            for n in leaves:
+                if n.kind[0] == 'R':
+                    idx = _index_of(ops, n.obj)
+                    if idx:
+                        ctx.check('C02.duration.after_registry_change', ops[idx[0]].duration == n.dur, {'step': n.label(), 'listed_duration': ops[idx[0]].duration, 'registry_value': n.dur})
         top_leaf = [n for n in built.nodes if not n.is_sub]
         ctx.check('C02.returned', all(pos.get(n.label()) is not None for n in top_leaf), {})
         # causal: everything a step refers to (explicitly or by implicit placement) is listed before it
